@@ -102,8 +102,6 @@ structure AKeys where
   wl     : Option PA
   deriving Repr
 
-def portsAny (p : PA) (f : PMode → Bool) : Bool := p.ports.any (fun e => f e.2)
-
 /-- The selection loop of `convertedSelectorPeerAuthentications` (a copy of the one in
     `ComposePeerAuthentication`, with the ambient comparison). -/
 def ambientSelStep (fx : Fixes) (root : String) (s : Sel) (c : PA) : Sel :=
@@ -116,47 +114,63 @@ def ambientSelStep (fx : Fixes) (root : String) (s : Sel) (c : PA) : Sel :=
 def ambientSel (fx : Fixes) (root : String) (configs : List PA) : Sel :=
   configs.foldl (ambientSelStep fx root) {}
 
-/-- `convertedSelectorPeerAuthentications`.  `fx.f3`: the UNSET-workload / inherited-STRICT
-    branch also looks for DISABLE ports. -/
-def ambientKeysG (fx : Fixes) (root : String) (configs : List PA) : AKeys :=
-  let s := ambientSel fx root configs
-  let e0 := match s.mesh with
-    | some m => m.mtls == .strict
-    | none => false
-  let e1 := match s.ns with
-    | some n => if n.mtls ≠ .unset then n.mtls == .strict else e0
-    | none => e0
+/-- Mode of an optional policy (`none` = the `*PeerAuthentication` is nil). -/
+def modeOf (c : Option PA) : Option PMode := c.map (fun p => p.mtls)
+
+/-- `cfg != nil && isMtlsModeStrict(cfg.Spec.Mtls)`. -/
+def mStrict (m : Option PMode) : Bool := m == some .strict
+
+/-- `cfg == nil || isMtlsModeUnset(cfg.Spec.Mtls)`. -/
+def mUnsetOrNil (m : Option PMode) : Bool := m == none || m == some .unset
+
+def portsAny (ports : List (Nat × PMode)) (f : PMode → Bool) : Bool := ports.any (fun e => f e.2)
+
+/-- `isEffectiveStrictPolicy` after the mesh and namespace steps. -/
+def inheritedStrict (meshM nsM : Option PMode) : Bool :=
+  let e0 := mStrict meshM
+  match nsM with
+  | some n => if n ≠ .unset then n == .strict else e0
+  | none => e0
+
+structure KeyBits where
+  static : Bool      -- reference the static STRICT policy
+  ref    : Bool      -- reference the converted workload policy
+  deriving DecidableEq, Repr
+
+/-- The workload-policy part of `convertedSelectorPeerAuthentications`, on modes.  `fx.f3`: the
+    UNSET-workload / inherited-STRICT branch also looks for DISABLE ports. -/
+def keysCore (fx : Fixes) (meshM nsM : Option PMode) (wlM : PMode) (ports : List (Nat × PMode)) : KeyBits :=
+  let e1 := inheritedStrict meshM nsM
+  let e2 := if wlM == .strict then true else e1
+  let e3 := if wlM == .permissive || wlM == .disable then false else e2
+  match wlM with
+  | .strict =>
+    if portsAny ports (fun m => m == .permissive || m == .disable) then { static := false, ref := true }
+    else { static := e3, ref := false }
+  | .permissive | .disable =>
+    if portsAny ports (fun m => m == .strict) then { static := e3, ref := true }
+    else { static := e3, ref := false }
+  | .unset =>
+    if e3 then
+      if portsAny ports (fun m => m == .permissive || (fx.f3 && m == .disable)) then { static := false, ref := true }
+      else { static := e3, ref := false }
+    else
+      if portsAny ports (fun m => m == .strict) then { static := false, ref := true }
+      else { static := false, ref := false }
+
+/-- The part of `convertedSelectorPeerAuthentications` after the selection loop. -/
+def keysOfSel (fx : Fixes) (s : Sel) : AKeys :=
   match s.wl with
-  | none => { static := e1, wl := none }
+  | none => { static := inheritedStrict (modeOf s.mesh) (modeOf s.ns), wl := none }
   | some wl =>
-    let e2 := if wl.mtls == .strict then true else e1
-    let e3 := if wl.mtls == .permissive || wl.mtls == .disable then false else e2
-    match wl.mtls with
-    | .strict =>
-      if portsAny wl (fun m => m == .permissive || m == .disable) then { static := false, wl := some wl }
-      else { static := e3, wl := none }
-    | .permissive | .disable =>
-      if portsAny wl (fun m => m == .strict) then { static := e3, wl := some wl }
-      else { static := e3, wl := none }
-    | .unset =>
-      if e3 then
-        if portsAny wl (fun m => m == .permissive || (fx.f3 && m == .disable)) then { static := false, wl := some wl }
-        else { static := e3, wl := none }
-      else
-        if portsAny wl (fun m => m == .strict) then { static := false, wl := some wl }
-        else { static := false, wl := none }
+    let k := keysCore fx (modeOf s.mesh) (modeOf s.ns) wl.mtls wl.ports
+    { static := k.static, wl := if k.ref then some wl else none }
+
+/-- `convertedSelectorPeerAuthentications`. -/
+def ambientKeysG (fx : Fixes) (root : String) (configs : List PA) : AKeys :=
+  keysOfSel fx (ambientSel fx root configs)
 
 /-! ## convertPeerAuthentication -/
-
-def optStrict (c : Option PA) : Bool :=
-  match c with
-  | some p => p.mtls == .strict
-  | none => false
-
-def optUnsetOrNil (c : Option PA) : Bool :=
-  match c with
-  | some p => p.mtls == .unset
-  | none => true
 
 /-- Loop state of the port loop. -/
 structure ConvSt where
@@ -167,58 +181,67 @@ structure ConvSt where
 
 /-- "the parent policy already enforces this STRICT port".  Pinned tree: `A || (B && C || D)`;
     repaired (`fixF2`): `A || (B && (C || D))`. -/
-def strictPortSkipped (fixF2 : Bool) (cfg : PA) (nsCfg rootCfg : Option PA) : Bool :=
-  let a := cfg.mtls == .strict
-  let b := cfg.mtls == .unset
-  let c := optStrict nsCfg
-  let d := optUnsetOrNil nsCfg && optStrict rootCfg
+def strictPortSkipped (fixF2 : Bool) (mode : PMode) (nsM rootM : Option PMode) : Bool :=
+  let a := mode == .strict
+  let b := mode == .unset
+  let c := mStrict nsM
+  let d := mUnsetOrNil nsM && mStrict rootM
   if fixF2 then a || (b && (c || d)) else a || ((b && c) || d)
 
 /-- "not STRICT and the effective policy is not STRICT": second `continue` of the non-strict port case. -/
-def nonStrictPortIgnored (cfg : PA) (nsCfg rootCfg : Option PA) : Bool :=
-  cfg.mtls == .unset &&
-    ((nsCfg.isSome && !optStrict nsCfg) ||
-     (nsCfg.isNone && rootCfg.isSome && !optStrict rootCfg) ||
-     (nsCfg.isNone && rootCfg.isNone))
+def nonStrictPortIgnored (mode : PMode) (nsM rootM : Option PMode) : Bool :=
+  mode == .unset &&
+    ((nsM.isSome && !mStrict nsM) ||
+     (nsM.isNone && rootM.isSome && !mStrict rootM) ||
+     (nsM.isNone && rootM.isNone))
 
-def convStep (fixF2 : Bool) (cfg : PA) (nsCfg rootCfg : Option PA) (st : ConvSt) (e : Nat × PMode) : ConvSt :=
+/-- Group emitted for a STRICT port. -/
+def gOf (port : Nat) : AGroup := [[{ notPrincipalPresence := true, dstPorts := [port] }]]
+
+/-- Rule emitted for an exempted (PERMISSIVE / DISABLE) port. -/
+def rOf (port : Nat) : ARule := [{ notDstPorts := [port] }]
+
+def convStep (fixF2 : Bool) (mode : PMode) (nsM rootM : Option PMode) (st : ConvSt) (e : Nat × PMode) : ConvSt :=
   match e.2 with
   | .strict =>
-    if strictPortSkipped fixF2 cfg nsCfg rootCfg then st
-    else { st with groups := st.groups ++ [[[{ notPrincipalPresence := true, dstPorts := [e.1] }]]] }
+    if strictPortSkipped fixF2 mode nsM rootM then st
+    else { st with groups := st.groups ++ [gOf e.1] }
   | .permissive | .disable =>
-    if cfg.mtls == .permissive || cfg.mtls == .disable then st
-    else if nonStrictPortIgnored cfg nsCfg rootCfg then st
-    else { st with foundNon := true, rules := st.rules ++ [[{ notDstPorts := [e.1] }]] }
+    if mode == .permissive || mode == .disable then st
+    else if nonStrictPortIgnored mode nsM rootM then st
+    else { st with foundNon := true, rules := st.rules ++ [rOf e.1] }
   | .unset => st
 
 /-- `maps.SeqStable`: iteration in increasing port order. -/
 def sortPorts (l : List (Nat × PMode)) : List (Nat × PMode) :=
   l.mergeSort (fun a b => decide (a.1 ≤ b.1))
 
-def shouldMergeStrict (nsCfg rootCfg : Option PA) : Bool :=
-  if optStrict rootCfg && (optUnsetOrNil nsCfg || optStrict nsCfg) then true
-  else optStrict nsCfg
+def shouldMergeStrict (nsM rootM : Option PMode) : Bool :=
+  if mStrict rootM && (mUnsetOrNil nsM || mStrict nsM) then true
+  else mStrict nsM
 
 /-- Repair of F10: `if nsCfg != nil && isMtlsModeUnset(nsCfg.Spec.Mtls) { nsCfg = nil }`. -/
-def dropUnset (c : Option PA) : Option PA :=
-  match c with
-  | some p => if p.mtls == .unset then none else some p
-  | none => none
+def dropUnset (m : Option PMode) : Option PMode :=
+  match m with
+  | some .unset => none
+  | x => x
 
-/-- `convertPeerAuthentication` (`none` = nil: nothing is sent for this policy). -/
-def convertPAG (fx : Fixes) (root : String) (cfg : PA) (nsCfg0 rootCfg : Option PA) : Option Authz :=
-  let fixF2 := fx.f2
-  let nsCfg := if fx.f10 then dropUnset nsCfg0 else nsCfg0
-  if cfg.ns == root || selNilG fx cfg || cfg.ports.isEmpty then none
+/-- The body of `convertPeerAuthentication` after the early return, on modes
+    (`none` = nil: nothing is sent for this policy). -/
+def convCore (fx : Fixes) (mode : PMode) (ports : List (Nat × PMode)) (nsM0 rootM : Option PMode) : Option Authz :=
+  let nsM := if fx.f10 then dropUnset nsM0 else nsM0
+  let st0 : ConvSt := { groups := [], rules := if mode == .strict then [ruleNP] else [], foundNon := false }
+  let st := (sortPorts ports).foldl (convStep fx.f2 mode nsM rootM) st0
+  if mode == .strict && !st.foundNon then none
+  else if st.rules.isEmpty && st.groups.isEmpty then none
   else
-    let st0 : ConvSt := { groups := [], rules := if cfg.mtls == .strict then [ruleNP] else [], foundNon := false }
-    let st := (sortPorts cfg.ports).foldl (convStep fixF2 cfg nsCfg rootCfg) st0
-    if cfg.mtls == .strict && !st.foundNon then none
-    else if st.rules.isEmpty && st.groups.isEmpty then none
-    else
-      let rules := if shouldMergeStrict nsCfg rootCfg && st.foundNon then st.rules ++ [ruleNP] else st.rules
-      some (if rules.isEmpty then st.groups else st.groups ++ [rules])
+    let rules := if shouldMergeStrict nsM rootM && st.foundNon then st.rules ++ [ruleNP] else st.rules
+    some (if rules.isEmpty then st.groups else st.groups ++ [rules])
+
+/-- `convertPeerAuthentication`. -/
+def convertPAG (fx : Fixes) (root : String) (cfg : PA) (nsCfg rootCfg : Option PA) : Option Authz :=
+  if cfg.ns == root || selNilG fx cfg || cfg.ports.isEmpty then none
+  else convCore fx cfg.mtls cfg.ports (modeOf nsCfg) (modeOf rootCfg)
 
 /-! ## PeerAuthDerivedPolicies -/
 
@@ -235,9 +258,8 @@ def derivedPolicyG (fx : Fixes) (root : String) (pas : List PA) (i : PA) : Optio
 
 /-! ## What ztunnel enforces for a workload -/
 
-/-- The DENY policies a workload references that exist in what istiod sends. -/
-def attachedG (fx : Fixes) (root : String) (pas : List PA) (w : Workload) : List Authz :=
-  let k := ambientKeysG fx root (ambientFetchG fx root pas w)
+/-- The DENY policies behind a workload's keys that exist in what istiod sends. -/
+def attachedOf (fx : Fixes) (root : String) (pas : List PA) (k : AKeys) : List Authz :=
   (if k.static then [staticStrict] else []) ++
   (match k.wl with
    | none => []
@@ -245,6 +267,10 @@ def attachedG (fx : Fixes) (root : String) (pas : List PA) (w : Workload) : List
      match derivedPolicyG fx root pas p with
      | none => []                 -- referenced but never sent: nothing to enforce
      | some a => [a])
+
+/-- The DENY policies a workload references that exist in what istiod sends. -/
+def attachedG (fx : Fixes) (root : String) (pas : List PA) (w : Workload) : List Authz :=
+  attachedOf fx root pas (ambientKeysG fx root (ambientFetchG fx root pas w))
 
 /-- ztunnel rejects the connection iff some attached DENY policy matches. -/
 def deniedG (fx : Fixes) (root : String) (pas : List PA) (w : Workload)
